@@ -675,7 +675,8 @@ def degenerate_pairs(ev, test_type):
 def check_result(case):
     m, blk, cov = case['m'], case['block'], case['cov']
     res, ev, nc = build_result(case)
-    what = 'Result(%s, %s ceiling)' % (blk['form'], blk['nc_form'])
+    what = 'Result(%s%s, %s ceiling)' % (blk['form'], ', folds NaN in some resamples (design %s)' % blk[
+        'design'] if blk.get('nan_folds') else '', blk['nc_form'])
     means = own_means(ev)
     got_means = lib(res.get_means, on_error='violation', sig='result:raises:get_means')
     require_close(got_means, means, what + ' get_means vs NaN-aware average', 'result:means',
@@ -908,6 +909,80 @@ def classify_boot(case):
     return labels, len(case['models']) >= 2
 
 
+# ---------------------------------------------------------------------------
+# sub-check 5: folds that could not be evaluated in some resamples (NaN cells, not NaN rows)
+
+# fold-block sizes (unequal) of a balanced availability design, see partial_nan_case
+FOLD_BLOCKS = [(1, 2), (2, 1), (1, 3), (3, 1), (1, 1, 2), (2, 1, 1), (1, 2, 1)]
+
+
+@st.composite
+def partial_nan_case(draw):
+    """bootstrap-crossvalidation evaluations (NxMxK or NxMxKxC) in which every fold is NaN in some
+    resamples (for all models and repeats, as a fold with too few conditions / RDMs is). The library
+    averages fold-first in get_means and resample-first in the t-tests; the two orders are only the
+    same average on balanced availability designs: folds and resamples fall into blocks, block b has
+    K_b folds available in exactly its t*K_b resamples. Block sizes are unequal, so the folds carry
+    different numbers of valid samples. Rows and folds are shuffled by generated permutations."""
+    m = draw(st.integers(1, 4))
+    perm = draw(gen.permutation(m))
+    dof = draw(st.integers(1, 50))
+    shift = dict(model=draw(st.integers(0, m - 1)),
+                 delta=draw(st.sampled_from([1 / 64.0, 0.125, 0.5, 2.0])))
+    ci = draw(st.sampled_from([0.5, 0.9, 0.95]))
+    blocks = draw(st.sampled_from(FOLD_BLOCKS))
+    t = draw(st.integers(1, 3))
+    n_cv = draw(st.sampled_from([0, 1, 2]))         # 0: 3-D evaluations
+    n_fold = sum(blocks)
+    n = t * n_fold
+    rows = draw(gen.permutation(n))
+    cols = draw(gen.permutation(n_fold))
+    nc_form = draw(st.sampled_from(['pair', 'resampled']))
+    amp = draw(st.sampled_from([1.0, 0.125]))
+    offs = [draw(st.sampled_from(OFFSETS)) for _ in range(m)]
+    fold_offs = [draw(st.sampled_from(OFFSETS)) for _ in range(n_fold)]
+    base = draw(st.sampled_from(OFFSETS))
+    valid = np.zeros((n, n_fold), dtype=bool)
+    r0 = c0 = 0
+    for kb in blocks:
+        valid[r0:r0 + t * kb, c0:c0 + kb] = True
+        r0 += t * kb
+        c0 += kb
+    valid = valid[rows][:, cols]
+    shape = (n, m, n_fold) + ((n_cv,) if n_cv else ())
+    size = int(np.prod(shape))
+    noise = np.array(draw(st.lists(st.integers(-32, 32), min_size=size, max_size=size)),
+                     dtype=float).reshape(shape) / 64.0 * amp
+    ev = noise + np.array(offs).reshape((1, m, 1) + (1,) * (len(shape) - 3)) \
+        + np.array(fold_offs).reshape((1, 1, n_fold) + (1,) * (len(shape) - 3))
+    for i in range(n):
+        for k in range(n_fold):
+            if not valid[i, k]:
+                ev[i, :, k] = np.nan
+    if nc_form == 'pair':
+        nc_shape = (2,)
+    else:
+        nc_shape = (2, n, n_fold if not n_cv else n_cv)
+    nsz = int(np.prod(nc_shape[1:])) if len(nc_shape) > 1 else 1
+    low = np.array(draw(st.lists(st.integers(-32, 32), min_size=nsz, max_size=nsz)),
+                   dtype=float) / 64.0 * amp + base
+    gap = np.array(draw(st.lists(st.integers(0, 16), min_size=nsz, max_size=nsz)), dtype=float) / 64.0
+    nc = np.array([low, low + gap]).reshape(nc_shape)
+    blk = dict(form='boot4' if n_cv else 'boot3', evals=ev.tolist(), nan_rows=[], nc_form=nc_form,
+               nc=nc.tolist(), cv_method='bootstrap_crossval', nan_folds=True,
+               design='%s x%d' % ('+'.join(str(b) for b in blocks), t))
+    cov = draw(cov_input(m))
+    return dict(m=m, block=blk, cov=cov, dof=dof, perm=perm, shift=shift, ci=ci)
+
+
+def classify_partial(case):
+    labels, _ = classify_result(case)
+    blk = case['block']
+    labels += ['res:nan-folds', 'res:nan-folds:design:' + blk['design'],
+               'res:nan-folds:%dD' % len(np.shape(blk['evals']))]
+    return labels, True
+
+
 SUBCHECKS = [
     SubCheck('fixed_ttests', fixed_case(), check_fixed, classify_fixed, quick=200,
              doc='eval_fixed: sem, pairwise / zero / ceiling p = classical paired / one-sided / '
@@ -929,4 +1004,9 @@ SUBCHECKS = [
     SubCheck('bootstrap_runs', boot_case(), check_boot, classify_boot, quick=60,
              doc='real eval_bootstrap / _rdm / _pattern results (resampled and fixed ceilings, generated '
                  'seed): all tests run, p in [0,1], means'),
+    SubCheck('results_nan_folds', partial_nan_case(), check_result, classify_partial, quick=80,
+             doc='synthetic bootstrap-crossvalidation Result objects (3-4-D) in which folds are NaN in '
+                 'some resamples only (balanced availability designs with unequal fold weights, on which '
+                 'fold-first and resample-first NaN-aware means coincide): t-test values are the t '
+                 'statistics of the means get_means reports; plus everything of results_boot_cv'),
 ]
